@@ -20,7 +20,7 @@ from .. import core
 
 ID = "C08"
 LEVEL = "exploration"
-RUNS = {"quick": 2100, "thorough": 70000}
+RUNS = {"quick": 4200, "thorough": 70000}
 REQUIRED_FAULTS = ["F7.simset_permuted_iteration", "F7.real_hashseed_sweep"]
 MACHINES = FORMATS
 SWEEP = {"quick": (210, [0, 1, 77]), "thorough": (2800, [0, 1, 2, 3, 1234, 99999, 424242, 31337])}
